@@ -1,5 +1,5 @@
 """Abstract values, formulas and the path state of the E1 abstract interpreter."""
-from .lin import Lin, reg_atom, entails_ge0, fm_unsat, relevant, ATOM_LO, ATOM_HI, ATOM_MASK, static_bounds, \
+from .lin import Lin, reg_atom, entails_ge0, fm_unsat, relevant, select_with_defs, ATOM_LO, ATOM_HI, ATOM_MASK, static_bounds, \
     I64MAX, U64MAX, show_lin
 
 
@@ -351,21 +351,15 @@ class State:
     def feasible(self, hint_atoms=None):
         """quick feasibility check of the facts relevant to hint atoms; prunes disjunctions"""
         cons = [(f.t, f.c) for f in self.facts]
+        if len(cons) > 30:
+            cons = [x for x in cons if len(x[0]) <= 14]
         if hint_atoms is None:
-            sel = cons
-            atoms = set()
+            allat = set()
             for t, c in cons:
-                atoms.update(t)
+                allat.update(t)
+            sel, atoms = select_with_defs(cons, allat)
         else:
-            sel, atoms = relevant(cons, set(hint_atoms))
-        sel = list(sel)
-        for a in atoms:
-            lo = ATOM_LO.get(a)
-            hi = ATOM_HI.get(a)
-            if lo is not None:
-                sel.append(({a: 1}, -lo))
-            if hi is not None:
-                sel.append(({a: -1}, hi))
+            sel, atoms = select_with_defs(cons, set(hint_atoms))
         if fm_unsat(sel):
             return False
         # neq check: lin != 0 where facts force lin == 0
@@ -403,6 +397,25 @@ class State:
         """facts (with disjunction case splits) |= goal >= 0"""
         if self.entails_plain(goal, extra):
             return True
+        if depth == 0:
+            # case split on 0/1 valued atoms (booleans cast to integers) connected to the goal
+            cons0 = [(f.t, f.c) for f in list(self.facts) + list(extra)]
+            _, ats = relevant(cons0, set(goal.atoms()), extra_rounds=2)
+            bits = [a for a in (set(ats) | set(goal.atoms())) if ATOM_LO.get(a) == 0 and ATOM_HI.get(a) == 1]
+            bits.sort(key=repr)
+            if bits and len(bits) <= 3:
+                import itertools
+                ok = True
+                for vals in itertools.product((0, 1), repeat=len(bits)):
+                    ex = list(extra)
+                    for a, v in zip(bits, vals):
+                        ex.append(Lin.atom(a) - v)
+                        ex.append(Lin.const(v) - Lin.atom(a))
+                    if not self.entails(goal, 1, ex):
+                        ok = False
+                        break
+                if ok:
+                    return True
         if not self.disj or depth >= 4:
             return False
         # case split on the disjunctions that share atoms with the relevant set
@@ -419,14 +432,7 @@ class State:
                     sub.disj = rest
                     # infeasible branch counts as proved
                     cs = [(f.t, f.c) for f in sub.facts]
-                    sel, ats = relevant(cs, set(goal.atoms()) | set(a for l in conj for a in l.atoms()))
-                    for a in ats:
-                        lo = ATOM_LO.get(a)
-                        hi = ATOM_HI.get(a)
-                        if lo is not None:
-                            sel.append(({a: 1}, -lo))
-                        if hi is not None:
-                            sel.append(({a: -1}, hi))
+                    sel, ats = select_with_defs(cs, set(goal.atoms()) | set(a for l in conj for a in l.atoms()))
                     if fm_unsat(sel):
                         continue
                     if not sub.entails(goal, depth + 1):
